@@ -119,12 +119,15 @@ PROPS = {
                            'untainted-seen minus accepted-taint-adds >= effective minimum whenever a taint is added; C03_below_min: below the minimum nothing is tainted. '
                            'Tie: hist correspondence on taint-adding and taint-removing updates; the same predicate monitored on observed journals.',
                 level_note=LEVEL_NOTE),
-    'C04': dict(level='proof', module='EscProofs.P.C04', streams=hist('C04'),
-                aspects=['hist:resize'], monitors=['C04'],
+    'C04': dict(level='proof', module='EscProofs.P.C04',
+                streams=dict(quick=[('scenario', ['-dir', '@ROOT/corpus/C04']), ('hist', ['-n', 400, '-scans', 10]), ('awsops', ['-n', 2000]), ('fleetops', ['-n', 96])],
+                             thorough=[('scenario', ['-dir', '@ROOT/corpus/C04']), ('hist', ['-n', 20000, '-scans', 12]), ('awsops', ['-n', 100000]), ('fleetops', ['-n', 1600])],
+                             search=[('hist', ['-n', 1500, '-scans', 12]), ('awsops', ['-n', 20000]), ('fleetops', ['-n', 300])]),
+                aspects=['hist:resize', 'cached-desired'], monitors=['C04'],
                 theorems=['Esc.P.C04_bound', 'Esc.P.C04_clamp_exact', 'Esc.P.C04_history'],
                 technique='Lean 4 theorem (walk of the journal with the running desired size; exact characterisation of IncreaseSize requests) + differential correspondence and runtime monitor',
                 level_text='C04_bound / C04_history: every SetDesiredCapacity value and every fleet request, on top of the desired size at that moment, is <= min(max_nodes, cloud max), for all inputs and histories; '
-                           'C04_clamp_exact: the clamp lands exactly on the bound and yields no request without headroom. Tie: hist correspondence on resize calls (arguments) + monitor.',
+                           'C04_clamp_exact: the clamp lands exactly on the bound and yields no request without headroom. Tie: hist correspondence on resize calls (arguments) + monitor; awsops/fleetops sequences on one provider (removals whose termination AWS rejects, then a request up to the maximum the provider reports) with the provider\'s cached desired size compared and every request checked against the cloud maximum counted from the real desired size.',
                 level_note=LEVEL_NOTE),
     'C05': dict(level='proof', module='EscProofs.P.Rne',
                 streams=dict(quick=[('arith', ['-n', 40000, '-dir', '@ROOT/corpus/C05']), ('hist', ['-n', 300, '-scans', 10, '-focus', 'up']), ('hist', ['-n', 150, '-scans', 8, '-focus', 'rotate'])],
